@@ -28,6 +28,13 @@ pub enum Cc {
     Le,
     Gt,
     Ge,
+    // not emitted by the backend today; architectural meaning, so that a change is judged
+    Hi,
+    Hs,
+    Lo,
+    Ls,
+    Mi,
+    Pl,
 }
 
 #[derive(Clone, Debug)]
@@ -186,6 +193,12 @@ fn parse_ins(mn: &str, rest: &str) -> Option<Ins> {
         ("BLE", _) => Ins::Bcc(Cc::Le, label_operand(rest)?),
         ("BGT", _) => Ins::Bcc(Cc::Gt, label_operand(rest)?),
         ("BGE", _) => Ins::Bcc(Cc::Ge, label_operand(rest)?),
+        ("BHI", _) => Ins::Bcc(Cc::Hi, label_operand(rest)?),
+        ("BHS" | "BCS", _) => Ins::Bcc(Cc::Hs, label_operand(rest)?),
+        ("BLO" | "BCC", _) => Ins::Bcc(Cc::Lo, label_operand(rest)?),
+        ("BLS", _) => Ins::Bcc(Cc::Ls, label_operand(rest)?),
+        ("BMI", _) => Ins::Bcc(Cc::Mi, label_operand(rest)?),
+        ("BPL", _) => Ins::Bcc(Cc::Pl, label_operand(rest)?),
         ("RET", []) => Ins::Ret,
         _ => return None,
     })
@@ -719,6 +732,12 @@ impl<'p> Machine<'p> {
                     Cc::Le => a <= b,
                     Cc::Gt => a > b,
                     Cc::Ge => a >= b,
+                    Cc::Hi => (a as u64) > (b as u64),
+                    Cc::Hs => (a as u64) >= (b as u64),
+                    Cc::Lo => (a as u64) < (b as u64),
+                    Cc::Ls => (a as u64) <= (b as u64),
+                    Cc::Mi => a.wrapping_sub(b) < 0,
+                    Cc::Pl => a.wrapping_sub(b) >= 0,
                 };
                 if t { self.jump_label(pc, l) } else { Ok(pc + 1) }
             }
